@@ -8,6 +8,7 @@ import (
 	"path/filepath"
 	"strconv"
 	"strings"
+	"testing/iotest"
 
 	"github.com/la5nta/wl2k-go/lzhuf"
 )
@@ -86,7 +87,7 @@ func implLzr(crc bool, stream []byte, sizes []int) (out string, data []byte, clo
 			panicked = true
 		}
 	}()
-	rd, err := lzhuf.NewReader(bytes.NewReader(stream), crc)
+	rd, err := lzhuf.NewReader(lzSource(stream), crc)
 	if err != nil {
 		return "new=" + errClass(err), nil, err, false, false
 	}
@@ -362,4 +363,32 @@ func lzInputs(c *Ctx, maxLen int, count int) []lzInput {
 		}
 	}
 	return ins
+}
+
+// lzSource presents the stream to the Reader the way different callers do: as one in-memory block, or through a
+// source that delivers it in fragments (a socket, a pipe: one byte per Read, half of what was asked for, data
+// together with io.EOF). The choice is a function of the stream, so a case replays exactly. Nothing the Reader
+// reports may depend on it - for streams without trailing bytes: Close checks the CRC over what the Reader's bufio
+// happened to pull from the source (known finding C08:crc-ignores-unread-tail), so for the malformed streams of C08
+// the verdict on trailing garbage DOES depend on the fragmentation; C08 therefore keeps the one-block source the
+// model assumes (4096-byte fills), and only C06/C07 (valid streams) switch the fragmenting sources on.
+var lzFragmentSources = false
+
+func lzSource(stream []byte) io.Reader {
+	if !lzFragmentSources {
+		return bytes.NewReader(stream)
+	}
+	h := uint32(len(stream))
+	for _, b := range stream[:min(len(stream), 16)] {
+		h = h*16777619 ^ uint32(b)
+	}
+	switch h % 4 {
+	case 1:
+		return iotest.OneByteReader(bytes.NewReader(stream))
+	case 2:
+		return iotest.HalfReader(bytes.NewReader(stream))
+	case 3:
+		return iotest.DataErrReader(bytes.NewReader(stream))
+	}
+	return bytes.NewReader(stream)
 }
